@@ -475,6 +475,11 @@ def _do_op(run, ev_i, ev, PP):
     if d is not None:
         if run.violation('ARG', op, 'twin', f"ARG: {op}(inplace=False) changed the object it was called on: {d}", ev_i):
             return True
+    # whether the copying variant hands back the operand itself (a no-op shortcut) is not C11's business - the
+    # permutation it denotes is what is judged here; sharing between results and arguments is decided under C08,
+    # whose catalogue calls the same methods and edits what they return.  Counted only.
+    if r_cp is twin:
+        out.probes['copy_variant_returned_its_operand'] += 1
     # ---- in-place and copying variants agree (a shuffle without seed is excepted: two draws)
     ill = False
     if open_iv and m.intervals:
